@@ -1,6 +1,7 @@
 /-
   C12 — Building then loading a header preserves its tags and is spec-well-formed.
 -/
+import Mb2.Props.FnsTblHdr
 import Mb2.Props.FnsBoxedCtor
 import Mb2.Props.FnsBoxed
 import Mb2.Props.FnsCast
